@@ -74,7 +74,12 @@ func (k *K) Wait() {
 	}
 }
 
+var choiceLogFlush func()
+
 func (k *K) bump() {
+	if choiceLogFlush != nil {
+		choiceLogFlush()
+	}
 	k.W.mu.Lock()
 	k.W.step++
 	s := k.W.step
